@@ -176,6 +176,12 @@ def _fold(e):
     raise _NoFold
 
 
+def _is_mutable_ctor(v) -> bool:
+    if isinstance(v, (ast.List, ast.Dict, ast.Set)) and not (getattr(v, "elts", None) or getattr(v, "keys", None)):
+        return True
+    return isinstance(v, ast.Call) and isinstance(v.func, ast.Name) and v.func.id in ("list", "dict", "set") and not v.args and not v.keywords
+
+
 class Executor:
     def __init__(self, fn: ast.FunctionDef, max_paths: int = MAX_PATHS, fold_guards: bool = True):
         self.fn = fn
@@ -289,6 +295,9 @@ class Executor:
 
     def branch(self, cond, st: State):
         """Returns list of (state, polarity) after recording the guard; folds constants and repeated guards."""
+        if isinstance(cond, ast.UnaryOp) and isinstance(cond.op, ast.Not):
+            # record `not x` as the guard x with flipped polarity
+            return [(s2, not pol) for s2, pol in self.branch(cond.operand, st)]
         f = fold(cond) if self.fold_guards else None
         if f is None:
             txt = U(cond)
@@ -307,7 +316,12 @@ class Executor:
 
     def assign_target(self, tgt, val, st: State, lineno=0):
         if isinstance(tgt, ast.Name):
-            st.env[tgt.id] = val
+            if _is_mutable_ctor(val):
+                # a fresh mutable container: keep the name (identity matters), remember what it was bound to
+                st.env[tgt.id] = ast.Name(id=tgt.id, ctx=ast.Load())
+                st.events.append(Event("bind", tgt.id, val, False, False, st.loopdepth, lineno))
+            else:
+                st.env[tgt.id] = val
         elif isinstance(tgt, (ast.Tuple, ast.List)):
             if isinstance(val, (ast.Tuple, ast.List)) and len(val.elts) == len(tgt.elts):
                 for t, v in zip(tgt.elts, val.elts):
